@@ -174,8 +174,7 @@ def check_case(case):
         v.inconclusive = "sweep budget exceeded (reported by C06)"
         return v
     if o.kind != "ok":
-        v.inconclusive = "solve failed (reported by C06)"
-        v.cls("solve_failed_" + o.kind)
+        v.fail("solve-raises", "a well-formed stopping game is not solved: " + o.brief(), sig=f"{o.kind}@{o.where}")
         return v
     label = f"solve(prune={prune})"
     try:
